@@ -27,12 +27,91 @@ ASSUMPTIONS = [
 FN = "ibldsp.utils.sync_timestamps"
 
 
+def _deep(du, e, at):
+    """`e` with every local that has a single plain definition substituted away (so that naming an intermediate step changes nothing)"""
+    import copy
+
+    class X(ast.NodeTransformer):
+        depth = 0
+
+        def visit_Name(self, node):
+            if not isinstance(node.ctx, ast.Load):
+                return node
+            v = expand_name(du, node, at)
+            if v is node or isinstance(v, (ast.Lambda,)) or self.depth > 12 or any(isinstance(n_, ast.Name) and n_.id == node.id for n_ in ast.walk(v)):
+                return node          # x = f(x): the name stands for itself
+            self.depth += 1
+            try:
+                return self.visit(copy.deepcopy(v))
+            finally:
+                self.depth -= 1
+    return X().visit(copy.deepcopy(e)) if e is not None else None
+
+
 def _mask_is_matched(e):
     """ib >= 0 (any spelling of 'a match is stored')"""
     return isinstance(e, ast.Compare) and len(e.ops) == 1 and loc_name(e.left) == "ib" and (
         (isinstance(e.ops[0], ast.GtE) and const_value(e.comparators[0]) == (True, 0)) or
         (isinstance(e.ops[0], ast.Gt) and const_value(e.comparators[0]) == (True, -1)) or
         (isinstance(e.ops[0], ast.NotEq) and const_value(e.comparators[0]) == (True, -1)))
+
+
+AGGREGATES = ("rms", "mean", "nanmean", "median", "nanmedian", "std", "nanstd", "var", "norm", "sum", "average")
+
+
+def _identity_fast_path(ctx, repo, fi, du, r):
+    """A return of (.., arange(n), ib) where ib is the identity pairing arange(n) handed out by a guarded helper / branch: every event is paired with the
+    event of the same rank.  That is a set of true correspondences only if EVERY pair passes the one-bin test the general path applies - an aggregate misfit
+    (rms / mean / norm of the residuals) below the bin does not bound the individual pairs.  -> set of def ids of `ib` it covers, or None if not this idiom."""
+    ibn = r.value.elts[3]
+    if not isinstance(ibn, ast.Name):
+        return None
+    ds = du.strong_reaching(ibn.id, r)
+    if len(ds) != 1 or ds[0].kind != "assign" or not isinstance(ds[0].value, ast.Call):
+        return None
+    q = repo.resolve_call(fi, ds[0].value)
+    if not (q and repo.has_fn(q)):
+        return None
+    g = repo.fn(q)
+    rets = [x for x in returns_of(g.node) if x.value is not None and not (isinstance(x.value, ast.Constant) and x.value.value is None)]
+    if len(rets) != 1 or not (isinstance(rets[0].value, ast.Call) and call_name(rets[0].value) == "arange"):
+        return None
+    ctx.shared.setdefault("C19.fast_helpers", set()).add(g.qualname)
+    # first element: arange(ib.size) / where(ib >= 0)[0]
+    ia = expand_name(du, r.value.elts[2], r)
+    ok_ia = (isinstance(ia, ast.Call) and call_name(ia) == "arange" and "ib" in src(ia)) or ("where" in src(ia) and "ib" in src(ia))
+    ctx.check(ok_ia, fi, r, r, "identity pairing: event m of tsa with event m of tsb", f"`{src(r.value.elts[2])}` is not the index of every event of tsa", key="fast-pairs")
+    # the guard of the arange return
+    dug = DefUse(g.node)
+    cfg = dug.cfg
+    per_pair = False
+    aggregate = None
+    for t, pol in cfg.guards(cfg.node_for(rets[0])):
+        if not pol:
+            continue
+        tt = t
+        if isinstance(tt, ast.Compare) and len(tt.ops) == 1 and isinstance(tt.ops[0], (ast.Lt, ast.LtE)):
+            lhs = _deep(dug, tt.left, rets[0])
+            lt = src(lhs).replace(" ", "")
+            if ("max(" in lt or "amax(" in lt or ".max()" in lt) and "abs(" in lt:
+                per_pair = True
+            else:
+                for c_ in find(lhs, ast.Call):
+                    if call_name(c_) in AGGREGATES:
+                        aggregate = (call_name(c_), tt)
+        elif isinstance(tt, ast.Call) and call_name(tt) == "all":
+            inner_ = _deep(dug, tt.args[0] if tt.args else tt.func.value, rets[0])
+            if "abs(" in src(inner_):
+                per_pair = True
+    if per_pair:
+        ctx.ok(g, rets[0], rets[0], "the identity pairing is accepted only when every single pair is within the bin", key="fast-accept")
+    elif aggregate is not None:
+        ctx.violation(g, aggregate[1], aggregate[1], f"the identity pairing (event m with event m) is accepted when `{src(aggregate[1])[:70]}`: {aggregate[0]}(...) is an aggregate over all pairs, it "
+                      "does not bound the individual ones - with the same number of events missing on either side a few ranks are shifted by one event, the aggregate "
+                      "stays below the bin when those events are close in time, and the shifted (false) pairs are returned and fitted", key="fast-accept", name_free=True)
+    else:
+        raise AnalysisError(f"{g.qualname}: acceptance test of the identity pairing not understood")
+    return {ds[0].idx}
 
 
 def d1_pairs(ctx):
@@ -43,8 +122,20 @@ def d1_pairs(ctx):
     rets = [r for r in returns_of(fi.node) if isinstance(r.value, ast.Tuple) and len(r.value.elts) == 4]
     if not rets:
         raise AnchorMissing("sync_timestamps: return with the two index vectors not found")
+    fast_defs = set()
     for r in rets:
+        fp = _identity_fast_path(ctx, repo, fi, du, r)
+        if fp is not None:
+            fast_defs |= fp
+            continue
         ia, ibv = expand_name(du, r.value.elts[2], r), expand_name(du, r.value.elts[3], r)
+        # a named mask (matched = ib >= 0) is the mask
+        class _M(ast.NodeTransformer):
+            def visit_Name(self, node):
+                v = expand_name(du, node, r)
+                return v if (v is not node and _mask_is_matched(v)) else node
+        import copy as _copy
+        ia, ibv = _M().visit(_copy.deepcopy(ia)), _M().visit(_copy.deepcopy(ibv))
         ok_a = isinstance(ia, ast.Subscript) and const_value(ia.slice) == (True, 0) and isinstance(ia.value, ast.Call) and call_name(ia.value) in ("where", "nonzero") \
             and ia.value.args and _mask_is_matched(ia.value.args[0])
         ok_a = ok_a or (isinstance(ia, ast.Call) and call_name(ia) == "flatnonzero" and ia.args and _mask_is_matched(ia.args[0]))
@@ -58,7 +149,11 @@ def d1_pairs(ctx):
     host = None
     for f in inner + [fi]:
         for c in find(f.node, ast.Call, nested=False):
-            if call_name(c) == "polyfit" and len(c.args) >= 3:
+            if call_name(c) == "polyfit" and not any(isinstance(n_, ast.Name) and n_.id == "ib" for n_ in ast.walk(c)) and f.qualname in ctx.shared.get("C19.fast_helpers", set()):
+                continue        # the straight-line test of the identity pairing in the fast-path helper (no match vector involved)
+            if call_name(c) == "polyfit" and (len(c.args) >= 3 or (len(c.args) == 2 and kwarg(c, "deg") is not None)):
+                if len(c.args) == 2:     # degree passed by keyword
+                    c = ast.copy_location(ast.Call(func=c.func, args=list(c.args) + [kwarg(c, "deg")], keywords=[k for k in c.keywords if k.arg != "deg"]), c)
                 fit, host = c, f
     if fit is None:
         raise AnchorMissing("sync_timestamps: polyfit not found")
@@ -77,7 +172,7 @@ def d1_pairs(ctx):
         ok = isinstance(a, ast.Subscript) and loc_name(a.value) == "tsa" and _mask_is_matched(a.slice) and isinstance(b, ast.Subscript) and loc_name(b.value) == "tsb" \
             and isinstance(b.slice, ast.Subscript) and loc_name(b.slice.value) == "ib" and _mask_is_matched(b.slice.slice)
         ctx.check(ok, host, c, c, "the interpolant goes through the matched pairs", f"`{src(c)[:80]}` does not interpolate tsa[mask] -> tsb[ib[mask]]", key="interp-pairs")
-    init = [d for d in du.defs if d.var == "ib" and d.kind == "assign"]
+    init = [d for d in du.defs if d.var == "ib" and d.kind == "assign" and d.idx not in fast_defs]
     oki = False
     if init:
         v = init[0].value
@@ -219,37 +314,92 @@ def d3_map_algebra(ctx):
             okd = False
     ctx.check(okd, host, dd[0].stmt if dd else host.node, dd[0].stmt if dd else "drift_ppm", "drift in ppm is the fitted slope times 1e6", "the reported drift is not ab[0] * 1e6", key="drift")
     du0 = DefUse(fi.node)
+    # rasters: a zeros vector in which the bins of ONE of the two series are set to 1 - identified by the series, whatever the vector is called
+    rasters = {}
+    snapshots = {}
+    sizes = set()      # the length the rasters are allocated with (number of bins)
+    for n in fi.node.body:           # straight-line part of the function: which series each vector carries, statement by statement
+        if isinstance(n, ast.Assign) and len(n.targets) == 1:
+            t0 = n.targets[0]
+            if isinstance(t0, ast.Subscript) and isinstance(t0.value, ast.Name) and const_value(n.value) == (True, 1):
+                idx = _deep(du0, t0.slice, n)
+                for b_ in find(idx, ast.BinOp):
+                    if isinstance(b_.op, ast.Sub) and loc_name(b_.left) in ("tsa", "tsb"):
+                        rasters[t0.value.id] = loc_name(b_.left)
+            elif isinstance(t0, ast.Name):
+                if isinstance(n.value, ast.Name) and n.value.id in rasters:
+                    rasters[t0.id] = rasters[n.value.id]          # alias of a raster
+                elif isinstance(n.value, ast.Call) and call_name(n.value) in ("zeros", "zeros_like", "empty"):
+                    rasters.pop(t0.id, None)                      # a fresh vector
+                    rasters[t0.id] = None
+                    if call_name(n.value) != "zeros_like" and n.value.args:
+                        sizes.add(norm(_deep(du0, n.value.args[0], n)))
+                elif isinstance(n.value, ast.Call):
+                    q_ = repo.resolve_call(fi, n.value)
+                    if q_ and repo.has_fn(q_) and n.value.args and loc_name(n.value.args[0]) in ("tsa", "tsb") and \
+                            any(isinstance(n2, ast.Assign) and isinstance(n2.targets[0], ast.Subscript) and const_value(n2.value) == (True, 1) for n2 in walk_function(repo.fn(q_).node)):
+                        rasters[t0.id] = loc_name(n.value.args[0])        # built by a helper from one series
+        snapshots[id(n)] = dict(rasters)
+    all_series = sorted({v for snap in snapshots.values() for v in snap.values() if v})
+
+    def _skip_alloc(du, e, at):
+        import copy
+
+        class X(ast.NodeTransformer):
+            depth = 0
+
+            def visit_Name(self, node):
+                if not isinstance(node.ctx, ast.Load) or node.id in rasters:
+                    return node
+                v = expand_name(du, node, at)
+                if v is node or isinstance(v, ast.Lambda) or self.depth > 12 or any(isinstance(n_, ast.Name) and n_.id == node.id for n_ in ast.walk(v)):
+                    return node
+                self.depth += 1
+                try:
+                    return self.visit(copy.deepcopy(v))
+                finally:
+                    self.depth -= 1
+        return X().visit(copy.deepcopy(e))
     dl = [d for d in du0.defs if d.var == "delta_t" and d.kind == "assign"]
     okc = False
+    why = "delta_t is not (peak index of correlate(raster of tsa, raster of tsb, 'full') - (len - 1)) * tbin"
     if dl:
-        v = dl[0].value
+        # the rasters as they are just before the offset is computed
+        body = list(fi.node.body)
+        k = body.index(dl[0].stmt) if dl[0].stmt in body else -1
+        rasters = dict(snapshots.get(id(body[k - 1]), rasters)) if k > 0 else rasters
+        v = _skip_alloc(du0, dl[0].value, dl[0].stmt)
         cor = [c for c in find(v, ast.Call) if call_name(c) == "correlate"]
-        okc = bool(cor) and [loc_name(a) for a in cor[0].args[:2]] == ["x", "y"] and const_value(kwarg(cor[0], "mode")) == (True, "full")
+        a0 = loc_name(cor[0].args[0]) if cor and len(cor[0].args) >= 2 else None
+        a1 = loc_name(cor[0].args[1]) if cor and len(cor[0].args) >= 2 else None
+        mode = (kwarg(cor[0], "mode") or (cor[0].args[2] if len(cor[0].args) > 2 else None)) if cor else None
+        okc = bool(cor) and rasters.get(a0) == "tsa" and rasters.get(a1) == "tsb" and const_value(mode) == (True, "full")
+        if cor and rasters.get(a0) == "tsb" and rasters.get(a1) == "tsa":
+            why = "the rasters are correlated in the order (tsb, tsa): the lag comes out with the opposite sign"
         if okc:
             class E(Evaluator):
                 def ev(self, e):
                     if isinstance(e, ast.Subscript) and isinstance(e.value, ast.Call) and call_name(e.value) == "parabolic_max":
                         return Poly.sym("PEAK")
+                    if isinstance(e, ast.Subscript) and isinstance(e.value, ast.Attribute) and e.value.attr == "shape" and loc_name(e.value.value) in rasters and const_value(e.slice) == (True, 0):
+                        return Poly.sym("NBINS")
+                    if isinstance(e, ast.Attribute) and e.attr == "size" and loc_name(e.value) in rasters:
+                        return Poly.sym("NBINS")
+                    if isinstance(e, ast.Call) and call_name(e) == "len" and e.args and loc_name(e.args[0]) in rasters:
+                        return Poly.sym("NBINS")
+                    if norm(e) in sizes:
+                        return Poly.sym("NBINS")
                     return super().ev(e)
             try:
-                okc = E().ev(v) == (Poly.sym("PEAK") - Poly.sym("x.shape[0]") + Poly.const(1)) * Poly.sym("tbin")
+                okc = E().ev(v) == (Poly.sym("PEAK") - Poly.sym("NBINS") + Poly.const(1)) * Poly.sym("tbin")
             except Undecided:
                 okc = False
-    ctx.check(okc, fi, dl[0].stmt if dl else fi.node, dl[0].stmt if dl else "delta_t", "coarse offset is the lag of the correlation peak in seconds", "delta_t is not (peak index of correlate(x, y, 'full') - (len - 1)) * tbin", key="delta")
+    ctx.check(okc, fi, dl[0].stmt if dl else fi.node, dl[0].stmt if dl else "delta_t", "coarse offset is the lag of the correlation peak in seconds", why, key="delta", name_free=True)
     use = [b for b in find(fi.node, ast.BinOp, nested=False) if isinstance(b.op, ast.Sub) and loc_name(b.right) == "delta_t"]
     oku = bool(use) and any("tsa" in src(b.left) for b in use)
     ctx.check(oku, fi, use[0] if use else fi.node, use[0] if use else "tsa[m] - delta_t", "the offset is removed from tsa before the first nearest-neighbour assignment", "the coarse offset is not subtracted from tsa (wrong sign / wrong series)",
               key="delta-use")
-    # x from tsa, y from tsb
-    marks = {}
-    for n in walk_function(fi.node):
-        if isinstance(n, ast.Assign) and isinstance(n.targets[0], ast.Subscript) and loc_name(n.targets[0].value) in ("x", "y") and const_value(n.value) == (True, 1):
-            series = None
-            for b_ in find(n.targets[0].slice, ast.BinOp):
-                if isinstance(b_.op, ast.Sub) and loc_name(b_.left) in ("tsa", "tsb"):
-                    series = loc_name(b_.left)
-            marks[loc_name(n.targets[0].value)] = series
-    ctx.check(marks == {"x": "tsa", "y": "tsb"}, fi, fi.node, f"{marks}", "x marks the bins of tsa, y those of tsb", f"event trains are binned as {marks}", key="bins")
+    ctx.check(all_series == ["tsa", "tsb"], fi, fi.node, f"{all_series}", "one raster marks the bins of tsa, another those of tsb", f"event trains binned: {all_series}", key="bins", name_free=True)
 
 
 def run(ctx):
